@@ -96,9 +96,9 @@ Definition c_adding (p : cpc) : Z :=
 Definition b_pre (p : bpc) : Z := match p with BGot _ _ | BDec _ | BConfirm _ => 1 | _ => 0 end.
 Definition b_gd (p : bpc) : Z := match p with BGot _ _ | BDec _ => 1 | _ => 0 end.
 Definition b_dec (p : bpc) : Z := match p with BDec _ => 1 | _ => 0 end.
-Definition b_live (p : bpc) : Z := match p with BExit _ | BDead => 0 | _ => 1 end.
+Definition b_live (p : bpc) : Z := match p with BStop | BExit _ | BDead => 0 | _ => 1 end.
 Definition b_exitpre (p : bpc) : Z :=
-  match p with BExit FEnter | BExit FRemove => 1 | _ => 0 end.
+  match p with BStop | BExit FEnter | BExit FRemove => 1 | _ => 0 end.
 Definition cmdn (s : state) : Z := match cmd s with Some _ => 1 | None => 0 end.
 Definition zb (b : bool) : Z := if b then 1 else 0.
 Definition lenz (h : batch) : Z := Z.of_nat (length h).
@@ -123,7 +123,7 @@ Record Inv (cfg : config) (s : state) : Prop := mkInv
 
 Lemma c_in_nonneg p : 0 <= c_in p. Proof. destruct p as [| | | |[]| | |]; cbn; lia. Qed.
 Lemma b_in_nonneg p : 0 <= b_in p.
-Proof. destruct p as [| | | | | | |[]| |[]|]; cbn; lia. Qed.
+Proof. destruct p as [| | | | | | |[]| | |[]|]; cbn; lia. Qed.
 Lemma c_send_nonneg p : 0 <= c_send p. Proof. destruct p; cbn; lia. Qed.
 Lemma c_conf_nonneg p : 0 <= c_conf p. Proof. destruct p; cbn; lia. Qed.
 Lemma c_adding_nonneg p : 0 <= c_adding p. Proof. destruct p; cbn; lia. Qed.
@@ -132,7 +132,7 @@ Lemma b_gd_nonneg p : 0 <= b_gd p. Proof. destruct p; cbn; lia. Qed.
 Lemma b_dec_nonneg p : 0 <= b_dec p. Proof. destruct p; cbn; lia. Qed.
 Lemma b_live_nonneg p : 0 <= b_live p. Proof. destruct p; cbn; lia. Qed.
 Lemma b_exitpre_nonneg p : 0 <= b_exitpre p.
-Proof. destruct p as [| | | | | | | | |[]|]; cbn; lia. Qed.
+Proof. destruct p as [| | | | | | | | | |[]|]; cbn; lia. Qed.
 
 Lemma init_inv cfg n : Inv cfg (init n).
 Proof.
@@ -280,7 +280,7 @@ Proof.
   destruct (nth_error (fl s) b) as [pc|] eqn:Hn; [|discriminate].
   pose proof (sumz_ge_nth b_live _ _ _ b_live_nonneg Hn) as Hlive.
   pose proof (sumz_nonneg b_exitpre (fl s) b_exitpre_nonneg) as Hexn.
-  destruct pc as [|cm last|h last|h|h|h| |f last|last|f|]; try discriminate.
+  destruct pc as [|cm last|h last|h|h|h| |f last|last| |f|]; try discriminate.
   all: try (destruct f as [| |h|ok|ok]); cbn [fstep] in H; unfold callback in H;
     brk2 H; inversion H; subst s'; clear H.
   all: destruct (guarded s) eqn:?.
